@@ -255,6 +255,10 @@ def _search():
     return _CACHE['r']
 
 
+def native_witness(ctx):
+    return _search()
+
+
 def build(ctx):
     for c in (release_contract(), acquire_contract()):
         eng = SegEngine(ctx, c)
